@@ -982,10 +982,9 @@ impl Arena {
     let mut allocated = header.allocated.load(Ordering::Acquire);
 
     let want = loop {
-      let aligned_offset = align_offset::<T>(allocated);
       let size = mem::size_of::<T>() as u32;
-      let Some(want) = aligned_offset
-        .checked_add(size)
+      let Some(want) = checked_align_offset::<T>(allocated)
+        .and_then(|aligned_offset| aligned_offset.checked_add(size))
         .and_then(|want| want.checked_add(extra))
         .filter(|want| *want <= self.cap)
       else {
@@ -1144,12 +1143,13 @@ impl Arena {
     let header = self.header();
     let mut allocated = header.allocated.load(Ordering::Acquire);
     let want = loop {
-      let align_offset = align_offset::<T>(allocated);
       let size = t_size as u32;
-      let want = align_offset + size;
-      if want > self.cap {
+      let Some(want) = checked_align_offset::<T>(allocated)
+        .and_then(|aligned_offset| aligned_offset.checked_add(size))
+        .filter(|want| *want <= self.cap)
+      else {
         break size;
-      }
+      };
 
       match header.allocated.compare_exchange_weak(
         allocated,
@@ -1619,7 +1619,10 @@ impl Arena {
       return false;
     }
 
-    let aligned_offset = align_offset::<AtomicU64>(offset) as usize;
+    let Some(aligned_offset) = checked_align_offset::<AtomicU64>(offset) else {
+      return false;
+    };
+    let aligned_offset = aligned_offset as usize;
     let padding = aligned_offset - offset as usize;
     let segmented_node_size = padding + SEGMENT_NODE_SIZE;
     if segmented_node_size >= size as usize {
@@ -1640,7 +1643,11 @@ impl Arena {
       return None;
     }
 
-    let aligned_offset = align_offset::<AtomicU64>(offset) as usize;
+    let Some(aligned_offset) = checked_align_offset::<AtomicU64>(offset) else {
+      self.increase_discarded(size);
+      return None;
+    };
+    let aligned_offset = aligned_offset as usize;
     let padding = aligned_offset - offset as usize;
     let segmented_node_size = padding + SEGMENT_NODE_SIZE;
     if segmented_node_size >= size as usize {
